@@ -370,6 +370,7 @@ class WriteView:
     """Post-state access for contracts of mutating methods: W(obj, field) is the value after the call."""
 
     def __init__(self, writes: list[tuple]) -> None:
+        self.raw = writes
         self.map: dict[tuple[int, str], Any] = {}
         for cont, key, new in writes:
             if isinstance(cont, SObj):
@@ -489,7 +490,12 @@ def eval_cases_concrete(c: Contract, a: NS, kind: str, value: Any, wview: Any = 
             if not inreg:
                 return False, "returned normally, but the contract requires an exception for these inputs"
             for k in inreg:
-                if k.post is not None and (k.post(a, value, wview) if _arity(k.post) >= 3 else k.post(a, value)) is not True:
+                if k.post is None:
+                    continue
+                pv = k.post(a, value, wview) if _arity(k.post) >= 3 else k.post(a, value)
+                if not isinstance(pv, bool):
+                    return True, "contract evaluation error on concrete values: the postcondition mentions uninterpreted spec functions and cannot be evaluated concretely"
+                if pv is not True:
                     return False, f"postcondition {k.label or cases.index(k)} is false on the returned value"
             return True, "ok"
         et = type(value)
